@@ -1885,8 +1885,8 @@ class Interp:
             raise RaiseSig(exc, node)
 
     def exec_If(self, node):
-        # `if logger.isEnabledFor(...)` blocks are effect free
-        if self.is_log_guard(node.test):
+        # a test of the logging level whose branches only log (or are empty) has no effect on the analysed state
+        if self.is_log_guard(node.test) and self.only_logs(node.body) and self.only_logs(node.orelse):
             return
         t = self.eval(node.test)
         if self.truth(t):
@@ -1895,7 +1895,21 @@ class Interp:
             self.exec_block(node.orelse)
 
     def is_log_guard(self, test):
+        while isinstance(test, ast.UnaryOp) and isinstance(test.op, ast.Not):
+            test = test.operand
         return (isinstance(test, ast.Call) and isinstance(test.func, ast.Attribute) and test.func.attr == "isEnabledFor")
+
+    @staticmethod
+    def only_logs(block):
+        for st in block:
+            if isinstance(st, ast.Pass):
+                continue
+            if isinstance(st, ast.Expr) and isinstance(st.value, ast.Call) and isinstance(st.value.func, ast.Attribute) \
+                    and st.value.func.attr in ("debug", "info", "warning", "error", "exception", "critical", "log") \
+                    and isinstance(st.value.func.value, ast.Name) and "log" in st.value.func.value.id.lower():
+                continue
+            return False
+        return True
 
     def exec_For(self, node):
         it = self.eval(node.iter)
